@@ -72,6 +72,7 @@ func (cropOW *CropOverwrite) OverwriteCropParameters(cropFile string, g *GlobalV
 		if err != nil {
 			errorStr := fmt.Sprintf("%s Error in crop overwrite parameters: %v", g.LOGID, err)
 			if g.DEBUGCHANNEL != nil {
+				verifYield("send.debug", g.LOGID, "")
 				g.DEBUGCHANNEL <- errorStr
 			} else {
 				log.Print(errorStr)
